@@ -7,6 +7,7 @@ import PcfgVerif.Lemmas.RuleDirLemmas
 import PcfgVerif.Generated.RuleDir
 import PcfgVerif.Lemmas.OmenFilesC
 import PcfgVerif.Properties.OmenTrainCore
+import PcfgVerif.Lemmas.OmenTextLemmas
 /-!
 # C07 — a saved ruleset means the same thing to every tool that loads it
 
@@ -247,6 +248,20 @@ theorem C07_omen_level_out_of_range (maxLevel : Nat) (l : Nat) (k : Omen.Str) (h
     Omen.loadIp maxLevel [(l, k)] = none ∧ Omen.loadCp maxLevel [(l, k)] = none ∧ Omen.loadLn maxLevel 2 [l] = none := by
   have : ¬ l ≤ maxLevel := by omega
   simp [Omen.loadIp, Omen.loadIpGo, Omen.loadCp, Omen.loadCpGo, Omen.loadLn, Omen.loadLnGo, this]
+
+/-- **the text layer of an OMEN level file.**  `omenFileText` is what the trainer writes for `IP.level` / `EP.level` / `CP.level`
+(`str(level) + TAB + ngram + LF` per record), `loadOmenText` the front of `_load_ngrams` and of the scorer's `_load_omen` (codec
+line iteration, `rstrip('\n\r')`, `split('\t')` into exactly two fields, `int()` of the first): for every list of records whose
+n-grams contain neither a line boundary nor a TAB - what `check_valid` guarantees of every accepted password - the text reads back as
+exactly the records written.  N-grams that end in a blank, U+00A0, U+3000 are returned whole (only CR / LF are stripped). -/
+theorem C07_omen_text_roundtrip (records : List (Nat × CPs))
+    (h : ∀ r ∈ records, ∀ c ∈ r.2, isLineSep c = false ∧ c ≠ 9) :
+    loadOmenText (omenFileText records) = some records :=
+  loadOmenText_omenFileText records h
+
+/-- non-vacuity (kernel-evaluated): an n-gram ending in a space, one ending in U+3000, level 10 -/
+example : loadOmenText (omenFileText [(0, [97, 32]), (10, [98, 0x3000]), (3, [32, 32])]) =
+    some [(0, [97, 32]), (10, [98, 0x3000]), (3, [32, 32])] := by decide +kernel
 
 /-- non-vacuity: the bigram tables of `OmenTrainCore` are well-formed and load -/
 example : ∃ tb, Omen.exTT.loadTables = some tb ∧ tb.ipTbl = Omen.exTT.toTables.ipTbl :=
